@@ -271,8 +271,37 @@ func fmtNewOptions(o packet.NewOptions) string {
 	}, ",") + "]"
 }
 
-// Call runs one zero-argument method of the view under recover.
-func Call(vt *VT, method string, v []byte, shape bool) (obs string) {
+// readOnly wraps one call of a getter / validator / decoder: DECODERS ARE READ-ONLY AND IDEMPOTENT.
+// The full backing array (view + spare capacity, poisoned) is compared before and after the call, and the call is
+// made twice on the same view: a write is reported as obs!write@<first changed offset>, a different second
+// result as obs!again=<second>. The model never prints these (its getters are functions of the bytes:
+// Properties/C02_views.v C02_getters_read_only), so either is a correspondence failure with the case as replay.
+func readOnly(v []byte, call func() string) string {
+	full := v[:cap(v)]
+	before := append([]byte{}, full...)
+	o1 := call()
+	for i := range full {
+		if full[i] != before[i] {
+			return fmt.Sprintf("%s!write@%d", o1, i)
+		}
+	}
+	if o2 := call(); o2 != o1 {
+		return o1 + "!again=" + o2
+	}
+	for i := range full {
+		if full[i] != before[i] {
+			return fmt.Sprintf("%s!write2@%d", o1, i)
+		}
+	}
+	return o1
+}
+
+// Call runs one zero-argument method of the view (twice, see readOnly), each call under recover.
+func Call(vt *VT, method string, v []byte, shape bool) string {
+	return readOnly(v, func() string { return call1(vt, method, v, shape) })
+}
+
+func call1(vt *VT, method string, v []byte, shape bool) (obs string) {
 	defer func() {
 		if e := recover(); e != nil {
 			obs = "panic"
@@ -347,8 +376,12 @@ func Consts() string {
 		packet.ICMP6TypeEchoRequest, packet.ICMP6TypeEchoReply, packet.DHCP4ServerPort, packet.DHCP4ClientPort, packet.DHCP4End, packet.DHCP4Pad)
 }
 
-// CallArg runs a one-integer-argument accessor of the view under recover.
-func CallArg(vt *VT, method string, arg int, v []byte, shape bool) (obs string) {
+// CallArg runs a one-integer-argument accessor of the view (twice, see readOnly), each call under recover.
+func CallArg(vt *VT, method string, arg int, v []byte, shape bool) string {
+	return readOnly(v, func() string { return callArg1(vt, method, arg, v, shape) })
+}
+
+func callArg1(vt *VT, method string, arg int, v []byte, shape bool) (obs string) {
 	defer func() {
 		if e := recover(); e != nil {
 			obs = "panic"
@@ -418,8 +451,18 @@ func Register(r *lib.Run, shape bool) {
 		}
 		return CallArg(vt, a[1], n, mkView(lib.UnHex(a[4]), lib.UnHex(a[3])), shape)
 	})
+	// gb LLDP Capability bytes: the capability decoder takes the TLV value as its argument (no view access)
+	r.Register("gb", func(a []string) string {
+		if a[0] != "LLDP" || a[1] != "Capability" {
+			return "nomethod"
+		}
+		arg := lib.UnHex(a[2])
+		return readOnly(arg, func() string { return "s:" + packet.LLDP(nil).Capability(arg) })
+	})
 	// consts: the exported layout constants the model hard-codes
 	r.Register("consts", func(a []string) string { return Consts() })
+	// caps: source census (go/ast) of the slice expressions in the aliasing getters (see SliceCensus)
+	r.Register("caps", func(a []string) string { return SliceCensus() })
 	r.Register("m", func(a []string) string {
 		vt := find(a[0])
 		if vt == nil {
@@ -592,8 +635,18 @@ func Main(shape bool) {
 	if r.Thorough() {
 		n = 2000
 	}
+	for _, t := range []int{0, 1, 2, 3, 4, 5, 6, 7, 8, 9, 10, 127, 128, 1000} {
+		r.Do("ga", "LLDP", "Type", strconv.Itoa(t), "-", "-")
+	}
+	for b := 0; b < 256; b++ { // every capability octet, and short / long values
+		r.Do("gb", "LLDP", "Capability", lib.Hex([]byte{rng.Byte(), byte(b)}))
+	}
+	for _, v := range [][]byte{nil, {0xff}, {0, 0x10, 0, 0x10}, {0xff, 0xff, 0xff}} {
+		r.Do("gb", "LLDP", "Capability", lib.Hex(v))
+	}
 	r.Do("types")
 	r.Do("consts")
+	r.Do("caps")
 	for i := range Types {
 		Generate(r, rng.Fork(), &Types[i], n)
 	}
